@@ -10,7 +10,7 @@ NOTE_HIST = ("Sampling, not enumeration. Single driving goroutine: no schedule d
 claim("C01", CONC + "porcupine linearizability of recorded histories against a counting gate + conservation invariants at stable points",
       "Every Acquire/complete/SetLimit history of a seeded run is checked for linearizability against the atomic counting gate; thousands of schedules per run of the check. Exploration is the right level: the property quantifies over interleavings and limit trajectories, which are sampled with replayable seeds.",
       NOTE_CONC + " porcupine timeouts (5 s) are counted inconclusive.", "DESIGN.md §3 C01")
-claim("C02", CONC + "ledger-vs-every-layer conservation invariants at stable points and after draining, with timeouts/cancellations placed on release instants",
+claim("C02", CONC + "ledger-vs-every-layer conservation invariants at stable points and after draining, with timeouts/cancellations placed on release instants and slow callers (restricted F-lag)",
       "Conservation is checked at every stable point of every run against an independent ledger, for all limiter stacks and all three outcomes, with give-ups coinciding with releases on the virtual clock.",
       NOTE_CONC, "DESIGN.md §3 C02")
 claim("C03", HIST + "lock-step reference gate for sequential histories incl. dynamic partitions; " + "porcupine linearizability for concurrent histories",
@@ -19,13 +19,13 @@ claim("C03", HIST + "lock-step reference gate for sequential histories incl. dyn
 claim("C04", HIST + "bounds oracle after every sample, panics recovered",
       "Each valid configuration/wrapper combination is driven through fault-structured sample histories (rtt 0, huge, drop-only windows, idle, clock jumps) and the estimate is checked after every sample.",
       NOTE_HIST, "DESIGN.md §3 C04")
-claim("C05", CONC + "enforced-limit == estimate invariant at stable points for all strategy kinds + OnSample/SetLimit sequence check",
+claim("C05", CONC + "enforced-limit == estimate invariant at stable points for all strategy kinds (dynamic partitions, F-lag) + state-based check of every completed update (incl. a settable limit changed from outside)",
       "Window-closing completions race under seeded schedules; at every stable point the strategy limit, partition shares and limit gauges must equal the floored estimate.",
       NOTE_CONC, "DESIGN.md §3 C05")
-claim("C06", HIST + "never-raises check on every drop sample (exact AIMD arithmetic) + bounded-liveness suffix of sustained drops",
+claim("C06", HIST + "never-raises check on every drop sample (exact AIMD arithmetic) + bounded-liveness suffix of sustained drops; concurrent AIMD samples must be serializable (seeded schedules)",
       "Reachable states are produced by seeded prefixes; every drop sample is checked and a sustained drop run must reach the floor within a configuration-derived bound.",
       NOTE_HIST + " Bounds are generous closed forms (calibrated, DESIGN.md §3 C06/C07).", "DESIGN.md §3 C06")
-claim("C07", HIST + "demand-gate check on every app-limited sample + bounded-liveness suffix of healthy saturated samples",
+claim("C07", HIST + "demand-gate check on every app-limited sample + bounded-liveness suffix of healthy saturated samples; concurrent AIMD samples must be serializable (seeded schedules)",
       "Reachable states from seeded prefixes; the per-sample growth rules (AIMD, Gradient) and bounded recovery to the ceiling (Vegas, Gradient, Gradient2) are checked.",
       NOTE_HIST + " Gradient probe interval 1 (probe on every sample) is outside the check's domain.", "DESIGN.md §3 C07")
 claim("C08", HIST + "relational twin-run oracle (same seed, same prefix, final sample differing only in rtt)",
@@ -37,13 +37,13 @@ claim("C09", HIST + "virtual-clock reference window model predicting every deleg
 claim("C10", CONC + "stable-point invariant 'no caller blocked while capacity is free' with releases forced into the attempt-failed/asleep window",
       "The scheduler parks waiters at every scheduling point between the failed attempt and going to sleep and runs whole releases inside that window; no timeout or cancellation is injected before the check.",
       NOTE_CONC, "DESIGN.md §3 C10")
-claim("C11", CONC + "scripted arrival orders + reference backlog list for every constructor",
+claim("C11", CONC + "scripted arrival orders + reference backlog list for every constructor, incl. expiries, cancellations and releases racing with a late caller that may barge in",
       "Arrival order is pinned by running each arrival to a stable point; after each release the grantee must be the reference backlog's oldest/newest, for every way of constructing the limiter.",
       NOTE_CONC, "DESIGN.md §3 C11")
 claim("C12", CONC + "blocked-callers <= max backlog at every quiescent point, queue_size gauge == blocked callers at stable points, sequential-model check of solo Acquires",
       "Simultaneous arrivals are parked between the length check and the push; give-ups coincide with hand-offs on the virtual clock.",
       NOTE_CONC, "DESIGN.md §3 C12")
-claim("C13", CONC + "exact-instant bound oracle on the virtual clock (arrival+timeout, deadline, cancel instant, equality cases)",
+claim("C13", CONC + "exact-instant bound oracle on the virtual clock (arrival+timeout, deadline, cancel instant, context deadlines, equality cases; strict F-lag for slow releasers)",
       "With all capacity held (or released on the same 1 ms grid as the bounds) every blocked call must return refused exactly at its bound; already-cancelled / past-deadline calls at the arrival instant.",
       NOTE_CONC, "DESIGN.md §3 C13")
 claim("C14", HIST + "event-log protocol oracle over fake handler/invoker/stream and recording limiter doubles with injected refusals and errors; small concurrent part on real limiters",
@@ -52,13 +52,13 @@ claim("C14", HIST + "event-log protocol oracle over fake handler/invoker/stream 
 claim("C15", HIST + "feasible-reset-set observer over RTTNoLoad() (needs no private state)",
       "RTT streams with step changes; the observer keeps every reset position consistent with the observed baselines; an empty set or an overdue reset is a violation.",
       NOTE_HIST, "DESIGN.md §3 C15")
-claim("C16", HIST + "listener bookkeeping oracle with late registration through every wrapper combination",
+claim("C16", HIST + "listener bookkeeping oracle with late registration through every wrapper combination; concurrent samples with slow listeners (seeded schedules)",
       "After every sample/SetLimit: estimate changed => every registered listener called, last delivered value == EstimatedLimit(), wrapper estimate == delegate estimate, traced forwarding unchanged.",
       NOTE_HIST, "DESIGN.md §3 C16")
 claim("C17", CONC + "Go race detector as oracle in a -race build, with the scheduler's own synchronisation hidden from it (RaceDisable / go:norace)",
       "The race detector decides; the simulator supplies replayable schedules over shared instances of every public type and removes its own happens-before edges. Races whose two accesses never occur in an explored run are missed.",
       NOTE_CONC + " GORACE suppress_equal_stacks=0 so shrinking/replay see repeated reports.", "DESIGN.md §3 C17")
-claim("C18", HIST + "reference folds per primitive, permutation check for the sample window, Reset==fresh twin oracle, change-flag check",
+claim("C18", HIST + "reference folds per primitive, permutation check for the sample window, Reset==fresh twin oracle, change-flag check; concurrent Add/Update/Reset must be serializable (seeded schedules)",
       "Each primitive is driven through Add/Get/Reset/Update histories and compared with a reference fold written from its name; reset instances are compared with fresh twins.",
       NOTE_HIST, "DESIGN.md §3 C18")
 claim("C19", CONC + "held <= limit at every quiescent point and everybody-served at the end of the schedule, for both pools and all orderings",
